@@ -674,6 +674,59 @@ func ruleC17(c *Ctx) {
 	if nShift == 0 {
 		c.undecided("RETEST", "shifts", cb.Pos(), "no window shift found")
 	}
+	// a loop over the tests is left before the list is exhausted, for a reason that has nothing to do with the
+	// window (the element is too long, empty, ...), and the barcode can still be accepted: the elements after
+	// it are never tested
+	for _, lh := range testLoops {
+		L := naturalLoopOf(lh)
+		var entry *ssa.BasicBlock
+		for _, s := range lh.Succs {
+			if L[s] && s != lh {
+				entry = s
+			}
+		}
+		if entry == nil {
+			continue
+		}
+		for _, b := range cb.Blocks {
+			if !L[b] || b == lh || len(b.Succs) != 2 {
+				continue
+			}
+			if enclosingLoopHeader(b) != lh {
+				continue // inside a slide loop: leaving THAT loop is the normal end of a slide
+			}
+			for _, sx := range b.Succs {
+				if L[sx] || !(sx == app.Block() || reaches(sx, app.Block())) {
+					continue
+				}
+				if !entry.Dominates(b) {
+					continue
+				}
+				aboutWindow := false
+				pcb := pathCond(tb, entry, b)
+				guards := pcb.atoms()
+				if ifi, ok := b.Instrs[len(b.Instrs)-1].(*ssa.If); ok {
+					guards = append(guards, condOfBool(tb, ifi.Cond, 0).atoms()...)
+				}
+				for _, a := range guards {
+					if a.Atom.contains(func(x *Term) bool {
+						sl, ok := x.V.(*ssa.Slice)
+						return ok && x.Op == "slice" && tb.T(sl.X).String() == deb
+					}) || a.Atom.contains(func(x *Term) bool { return x.Op == "phi" || x.Op == "rec" || x.Op == "anyof" }) {
+						aboutWindow = true
+					}
+				}
+				if len(guards) == 0 || aboutWindow {
+					continue
+				}
+				at := lh.Instrs[0].Pos()
+				if ifi, ok := b.Instrs[len(b.Instrs)-1].(*ssa.If); ok && ifi.Cond.Pos() != token.NoPos {
+					at = ifi.Cond.Pos()
+				}
+				c.bad("RETEST", "the test loop runs to the end of its list", at, "the loop over the tests at "+c.W.pos(lh.Instrs[0].Pos())+" is left here under a condition on the element alone ("+short(pathCondString(guards))+"), and the barcode can still be accepted: the elements that come after it are never looked for in this window")
+			}
+		}
+	}
 	// every test guards the append: bans, rc(bans) and filters are each consulted
 	var haveBan, haveRC, haveFn bool
 	var filtered []string
@@ -1034,4 +1087,17 @@ func appendWeb(v ssa.Value) []*ssa.Call {
 	}
 	walk(v)
 	return out
+}
+
+
+func pathCondString(as []condAtom) string {
+	var out []string
+	for _, a := range as {
+		t := a.Atom.String()
+		if a.Neg {
+			t = "!" + t
+		}
+		out = append(out, t)
+	}
+	return strings.Join(out, " && ")
 }
